@@ -16,6 +16,20 @@ Theorem C04_roundtrip : forall m u, wf u = true -> decode m (encode u) = Some u.
 Proof. exact roundtrip. Qed.
 Print Assumptions C04_roundtrip.
 
+(* conversely the decoder invents nothing: whatever it accepts is byte for byte the
+   encoding of the UPDATE it returns (implementation's mode; in the RFCs' mode the
+   trailing bits are masked, so the bytes may differ there and only there) ... *)
+Theorem C04_decode_sound : forall b u, decode Code b = Some u -> encode u = b.
+Proof. exact decode_sound. Qed.
+Print Assumptions C04_decode_sound.
+
+(* ... and the language it accepts is exactly the encodings of well-formed UPDATEs
+   (the encoder is the grammar; [mp_unique] is the one check of [wf] that this mode leaves out) *)
+Theorem C04_decode_sound_complete : forall b u,
+  (decode Code b = Some u /\ mp_unique (u_attrs u) = true) <-> (wf u = true /\ b = encode u).
+Proof. exact decode_iff. Qed.
+Print Assumptions C04_decode_sound_complete.
+
 (* the events derived from the bytes of a well-formed UPDATE are exactly: one
    announcement per reachable prefix of a supported family (MP_REACH first, then
    the conventional NLRI field, in PDU order), each carrying the UPDATE's whole
